@@ -356,19 +356,29 @@ func CtxWithCancelCause(parent context.Context) (context.Context, context.Cancel
 	return c, func(cause error) { c.cancel(context.Canceled, cause) }
 }
 
+// TimeoutsMayFire: when false, WithTimeout/WithDeadline contexts never expire
+// on their own (they still follow their parent and their cancel function).
+var TimeoutsMayFire = true
+
 // TimeoutPolls is the number of polls after which a WithTimeout/WithDeadline
 // context is assumed to expire.
 var TimeoutPolls = 2
 
 //verif:stub context.WithTimeout
 func CtxWithTimeout(parent context.Context, d time.Duration) (context.Context, context.CancelFunc) {
-	c := &Ctx{parent: parent, Env: true, EnvErr: context.DeadlineExceeded, MaxPolls: TimeoutPolls, hasDL: true}
+	c := &Ctx{parent: parent, Env: TimeoutsMayFire, EnvErr: context.DeadlineExceeded, MaxPolls: TimeoutPolls, hasDL: true}
+	return c, func() { c.cancel(context.Canceled, nil) }
+}
+
+//verif:stub context.WithTimeoutCause
+func CtxWithTimeoutCause(parent context.Context, d time.Duration, cause error) (context.Context, context.CancelFunc) {
+	c := &Ctx{parent: parent, Env: TimeoutsMayFire, EnvErr: context.DeadlineExceeded, MaxPolls: TimeoutPolls, hasDL: true}
 	return c, func() { c.cancel(context.Canceled, nil) }
 }
 
 //verif:stub context.WithDeadline
 func CtxWithDeadline(parent context.Context, t time.Time) (context.Context, context.CancelFunc) {
-	c := &Ctx{parent: parent, Env: true, EnvErr: context.DeadlineExceeded, MaxPolls: TimeoutPolls, hasDL: true, deadline: t}
+	c := &Ctx{parent: parent, Env: TimeoutsMayFire, EnvErr: context.DeadlineExceeded, MaxPolls: TimeoutPolls, hasDL: true, deadline: t}
 	return c, func() { c.cancel(context.Canceled, nil) }
 }
 
